@@ -148,10 +148,10 @@ static void ep_key_objects(Endpoint &e, bool re)
         if (alg == A80) ascon_masked_key_160_init(&e.u.mk160, k); else ascon_masked_key_128_init(&e.u.mk128, k);
         // a masked key may be re-randomised at any time and must keep its value (judged where the key is used and,
         // through the extracted bytes, right here); half of the endpoints do it before their first packet
-        if ((e.key[0] ^ e.nonce[15]) & 1) {
+        {
             uint8_t out[20];
-            if (alg == A80) { ascon_masked_key_160_randomize(&e.u.mk160); ascon_masked_key_160_extract(&e.u.mk160, out); }
-            else { ascon_masked_key_128_randomize(&e.u.mk128); ascon_masked_key_128_extract(&e.u.mk128, out); }
+            if ((e.key[0] ^ e.nonce[15]) & 1) { if (alg == A80) ascon_masked_key_160_randomize(&e.u.mk160); else ascon_masked_key_128_randomize(&e.u.mk128); }
+            if (alg == A80) ascon_masked_key_160_extract(&e.u.mk160, out); else ascon_masked_key_128_extract(&e.u.mk128, out);
             g_mask_extract_bad |= memcmp(out, k, e.key.size()) != 0;
         }
         break;
@@ -307,9 +307,17 @@ static Bytes ep_encrypt(Endpoint &e, const Bytes &m, const Bytes &ad, Rng *chunk
         else ascon80pq_aead_encrypt_finalize(&e.u.s80, c.p + m.size());
         clen = m.size() + 16;
         break; }
-    default: { // C++
-        int r = e.cpp->encrypt(c.p, mp, m.size(), ap, ad.size());
-        clen = r < 0 ? 0 : (size_t)r;
+    default: { // C++: every packet goes through one of the four overloads (the nonce discipline is the same for all)
+        unsigned ov = (unsigned)((m.size() * 7 + ad.size()) % 4);
+        if (ov < 2) {
+            int r = ov == 0 || !ad.empty() ? e.cpp->encrypt(c.p, mp, m.size(), ap, ad.size()) : e.cpp->encrypt(c.p, mp, m.size());
+            clen = r < 0 ? 0 : (size_t)r;
+        } else {
+            ascon::byte_array cv, mv(m.begin(), m.end()), av(ad.begin(), ad.end());
+            if (ov == 2 || !ad.empty()) e.cpp->encrypt(cv, mv, av); else e.cpp->encrypt(cv, mv);
+            clen = cv.size();
+            if (clen && clen <= c.n) memcpy(c.p, cv.data(), clen);
+        }
         break; }
     }
     if (!c.intact()) run.violation("C12", "canary", fam_name(e.fam) + ".encrypt", "ciphertext canary damaged");
@@ -377,8 +385,18 @@ static int ep_decrypt(Endpoint &e, const Bytes &x, const Bytes &ad, Bytes &m_out
         mlen = cap;
         break; }
     default: {
-        r = e.cpp->decrypt(m.p, xp, x.size(), ap, ad.size());
-        mlen = r < 0 ? 0 : (size_t)r;
+        unsigned ov = (unsigned)((x.size() * 5 + ad.size()) % 4);
+        if (ov < 2 || x.size() < 16) {
+            r = ov == 0 || !ad.empty() ? e.cpp->decrypt(m.p, xp, x.size(), ap, ad.size()) : e.cpp->decrypt(m.p, xp, x.size());
+            mlen = r < 0 ? 0 : (size_t)r;
+        } else {
+            ascon::byte_array mv, cv(x.begin(), x.end()), av(ad.begin(), ad.end());
+            bool ok = ov == 2 || !ad.empty() ? e.cpp->decrypt(mv, cv, av) : e.cpp->decrypt(mv, cv);
+            r = ok ? (int)mv.size() : -1;
+            mlen = ok ? mv.size() : 0;
+            if (ok && mlen <= m.n && mlen) memcpy(m.p, mv.data(), mlen);
+            if (!ok) memset(m.p, 0, m.n); // nothing is handed out by the raw buffer convention of this harness
+        }
         break; }
     }
     if (!m.intact()) run.violation("C12", "canary", fam_name(e.fam) + ".decrypt", "plaintext canary damaged");
@@ -539,8 +557,11 @@ struct ChannelWorld : World {
         uint8_t n[16];
         make_nonce(n, op.u(2) ^ c.salt, (unsigned)op.u(3)); // twin runs differ in the nonce too (it is state an object holds); the carry chain is the plan's
         int kp = is_cpp(S.fam) ? (int)(op.u(4) % 2) : 0;
+        bool rng_dead = (op.u(2) % 8) == 3; // keys are also made while the system entropy source is failing
+        if (rng_dead) { simrng_arm(simrng_cur(), 0, 1); if (c.record) c.run->fault("rng.dead_during_keying"); }
         ep_setup(S.A, S.fam, key, n, kp);
         ep_setup(S.B, S.fam, key, n, is_cpp(S.fam) ? (int)((op.u(4) >> 1) % 2) : 0);
+        if (rng_dead) simrng_arm(simrng_cur(), 0, 0);
         if (c.record && kp) c.run->probe("cpp.key_constructor");
         if (c.record) c.run->state(fmt("sess/%d/%u", S.fam, (unsigned)(op.u(3) % 17)));
     }
@@ -926,7 +947,7 @@ struct ChannelWorld : World {
             else if (op.name == "storm") do_storm(c, op);
             else if (op.name == "close") do_close(c, (int)(op.u(0) % NSESS));
             // set by ep_key_objects when a re-randomised masked key no longer extracts to its key: reported for the operation that keyed it
-            if (g_mask_extract_bad) { if (c.record) c.run->violation("C10", "randomize_then_extract_returns_key", "masked_key@" + op.name, "a masked key that was re-randomised no longer extracts to the key it was made from"); g_mask_extract_bad = false; }
+            if (g_mask_extract_bad) { if (c.record) c.run->violation("C10", "mask_then_extract_returns_key", "masked_key@" + op.name, "a masked key (freshly made or re-randomised) does not extract to the key it was made from"); g_mask_extract_bad = false; }
         }
         for (int s = 0; s < NSESS; ++s) do_close(c, s);
     }
